@@ -237,6 +237,11 @@ def _builder_ops(fn, var, stmts, start, depth=0):
                     a = a["elems"][0]
                 toks = _quote_tokens(a, fn)
                 if toks is None:
+                    if A.kind(a) == "Expr::Path" and "::" not in A.path_str(a):
+                        # `ts.extend(other_stream)`: the other stream spliced as a whole
+                        sp = A.span_of(a)
+                        out.append({"t": "var", "s": A.path_str(a), "span": list(sp) if sp else [0, 0]})
+                        continue
                     return None
                 out.extend(compose(fn, to_ir(toks)))
                 continue
@@ -269,8 +274,10 @@ def _builder_ops(fn, var, stmts, start, depth=0):
                 sp = A.span_of(e)
                 out.append({"t": "grp", "d": d, "body": inner, "span": list(sp) if sp else [0, 0]})
                 continue
-        # a use that is not a recognised append: a plain read (tuple / return value) ends the build
+        # a use that is not a recognised append: a plain read (tuple / return value / by-value argument) ends the build
         if A.kind(e) in ("Expr::Tuple", "Expr::Path", "Expr::Call", "Expr::Return", "Expr::Macro"):
+            break
+        if A.kind(e) == "Expr::MethodCall" and A.render(e["receiver"]) != var and not any(A.render(a).replace(" ", "") == f"&mut{var}" for a in e["args"]):
             break
         return None
     return out
